@@ -9,18 +9,21 @@ tx thread, the rx thread and of any number of user threads inside `disconnect()`
   d3  `txthread = self._txthread`            (set → d4, `None` → d7)
   d4  `self.txq.put(None)`                   (the marker)
   d5  `txthread.join()`                      (enabled iff the tx thread has finished)
-  d6  `self._txthread = None`
+  d6  `if self._txthread is txthread: self._txthread = None`   (one connection, no `connect()` in this model: the
+      attribute is clear afterwards — by this step, or because the tx thread has cleared it itself)
   d7  `rxthread = self._rxthread`            (set → d8, `None` → d10)
   d8  `rxthread.join()`                      (enabled iff the rx thread has finished)
-  d9  `self._rxthread = None`
-  d10 `io.disconnect(); self.io = None`
+  d9  `if self._rxthread is rxthread: self._rxthread = None`   (likewise)
+  d10 `io.disconnect(); if self.io is io: self.io = None`
   d11 `_abort_requests()`: drains `txq` again, one item per step, returns when empty
   fin returned
 tx thread: `check` (`while self._running`) → `get` (`self.txq.get()`, blocks on an empty queue) → marker: `x0` |
   entry: `proc` (file + send; a failing send leaves the loop) → `check`;  `x0`: `self._txthread = None`, then `disconnect(False)`.
 rx thread: `check` → `read` (`readline`: returns a line or `None` within 1 s, or raises `ConnectionClosed` once the
   connection is shut down / dropped) → `check` | `f0`;  `f0`: `self._rxthread = None`, then `disconnect(False)`.
-Callers may `put` requests and the peer may drop the connection at any time.  The reconnect thread is not modelled.
+Callers may `put` requests and the peer may drop the connection at any time.  The reconnect thread and `connect()` are
+not modelled: both workers exist and are registered in `_txthread` / `_rxthread` from the start (`connect()` lets them
+run only after it has stored both handles).
 -/
 namespace Frappy.Client.Shutdown
 
